@@ -175,16 +175,22 @@ class Reporter:
         self.configs = []
         self.extra = {}
         self.posctl = 0
+        self.cfgtag = None
         self.bodies_analysed = 0
         self.call_sites = 0
 
+    def _inst(self, instance):
+        return instance if not self.cfgtag else '%s@%s' % (instance, self.cfgtag)
+
     def ok(self, rule, fn, instance, found, nontrivial=True, sample=False):
+        instance = self._inst(instance)
         self.obligations.append({'rule': rule, 'fn': fn, 'instance': instance, 'found': found,
                                  'verdict': 'ok', 'nontrivial': nontrivial})
         if sample or len([s for s in self.samples if s['rule'] == rule]) < 2:
             self.samples.append({'rule': rule, 'fn': fn, 'instance': instance, 'found': _short(found), 'verdict': 'ok'})
 
     def bad(self, rule, fn, instance, found, expected, where=None, kind='VIOLATION', path=None):
+        instance = self._inst(instance)
         key = '%s|%s|%s' % (rule, fn, instance)
         self.obligations.append({'rule': rule, 'fn': fn, 'instance': instance, 'found': found,
                                  'verdict': 'violated', 'nontrivial': True})
@@ -213,7 +219,7 @@ class Reporter:
             self.bad(rule, '-', 'floor:' + what, '%d instance(s) found' % n,
                      'at least %d instances (counted on the pinned tree)' % floor, kind='ANCHOR-LOST')
             return False
-        self.obligations.append({'rule': rule, 'fn': '-', 'instance': 'floor:' + what,
+        self.obligations.append({'rule': rule, 'fn': '-', 'instance': self._inst('floor:' + what),
                                  'found': '%d >= %d' % (n, floor), 'verdict': 'ok', 'nontrivial': False})
         return True
 
